@@ -119,8 +119,8 @@ fn oracle(case: &[u8], obs: &mut Obs) -> Result<(), String> {
                 m::NoteRec { n_type: 1, name: b"GNU\0".to_vec(), desc: c.bytes(l) }
             }
             _ => {
-                let nl = c.below(41) as usize;
-                let dl = c.below(41) as usize;
+                let nl = if c.chance(64) { c.below(5) as usize } else { c.below(41) as usize };
+                let dl = if c.chance(64) { 0 } else { c.below(41) as usize };
                 let name: Vec<u8> = match c.below(6) {
                     0 => b"GNU\0".to_vec(),
                     1 => {
@@ -193,6 +193,20 @@ fn oracle(case: &[u8], obs: &mut Obs) -> Result<(), String> {
         }
     }
     let via = c.below(3);
+    if align <= usize::MAX as u64 {
+        // the iterator ends for good: polled through fuse() it stays None after the first None
+        let stays_none = with_endian!(spec, |e| {
+            let mut f = NoteIterator::new(e, class, align as usize, &data).fuse();
+            let mut k = 0usize;
+            while f.next().is_some() && k <= data.len() {
+                k += 1;
+            }
+            f.next().is_none() && f.next().is_none() && f.next().is_none()
+        });
+        if !stays_none {
+            return Err(format!("NoteIterator(align={}).fuse() yielded an item after it had returned None; data[{}]={}", align, data.len(), hex(&data[..data.len().min(96)])));
+        }
+    }
     let (items, excluded) = match via {
         0 => {
             if align > usize::MAX as u64 {
